@@ -21,12 +21,65 @@ def accepted (s : Sys) : List HOp → List HOp
 /-- When `try_receive` returns an error, neither the host nor the receiver's state changed. -/
 theorem C07_reject_no_effect (σ : Sigma) (e : Event) (r : RErr) (σ' : Sigma)
     (h : tryReceive σ e = .err r σ') : σ' = σ := by
-  sorry
+  cases e
+  case valuesRecorded id values =>
+    simp only [tryReceive] at h
+    split at h
+    · simp_all
+    · split at h
+      · simp_all
+      · rename_i l hl
+        cases l with
+        | none =>
+          simp only at h
+          split at h <;> simp_all
+        | some hh =>
+          simp only at h
+          cases hs : AMap.get σ.r.spans id with
+          | none => simp [hs] at h
+          | some d =>
+            simp only [hs] at h
+            cases hm : AMap.get σ.r.mt d.mt with
+            | none =>
+              simp only [hm] at h
+              simp_all
+            | some idx =>
+              simp only [hm] at h
+              cases hc : createValues (generateFields (siteOf σ.w idx) values) with
+              | none => simp [hc] at h
+              | some v => simp [hc, hs] at h
+  all_goals (simp only [tryReceive] at h <;> (repeat' split at h) <;> simp_all)
 
 /-- Host observation, receiver state and persisted state of any history equal those of the
     history with the rejected events removed. -/
 theorem C07_filter (s : Sys) (ops : List HOp) : runHistory s (accepted s ops) = runHistory s ops := by
-  sorry
+  induction ops generalizing s with
+  | nil => rfl
+  | cons op ops ih =>
+    cases op with
+    | ev e =>
+      cases ht : tryReceive s.σ e with
+      | err r σ' =>
+        have hσ := C07_reject_no_effect s.σ e r σ' ht
+        have hs : s.step (.ev e) = s := by
+          simp only [Sys.step, ht, Res.state, hσ]
+        have ha : accepted s (.ev e :: ops) = accepted s ops := by
+          simp only [accepted, ht]
+        rw [ha, ih s]
+        show runHistory s ops = runHistory (s.step (.ev e)) ops
+        rw [hs]
+      | ok σ' =>
+        have ha : accepted s (.ev e :: ops) = .ev e :: accepted (s.step (.ev e)) ops := by
+          simp only [accepted, ht]
+        rw [ha]
+        exact ih (s.step (.ev e))
+      | panic site σ' =>
+        have ha : accepted s (.ev e :: ops) = .ev e :: accepted (s.step (.ev e)) ops := by
+          simp only [accepted, ht]
+        rw [ha]
+        exact ih (s.step (.ev e))
+    | persist m => exact ih (s.step (.persist m))
+    | discard => exact ih (s.step .discard)
 
 /-- Non-vacuity: an event that is rejected in a state that has accumulated something. -/
 example :
